@@ -457,8 +457,18 @@ def apply_renames(F):
     if not newfns:
         return
     cand = {}
+    # a function moved to another file of the same impl keeps its name: pair those first
+    moved = {}
     for p in missing:
-        cs = [n for n in newfns if scope_of(n.path) == scope_of(p) and fn_sig(n) == sigs[p][0] and n.crate == p.split("::")[0].lstrip("<")]
+        cs = [n for n in newfns if scope_of(n.path) == scope_of(p) and lastseg(n.path) == lastseg(p) and fn_sig(n) == sigs[p][0]]
+        if len(cs) == 1:
+            moved[p] = cs[0]
+    taken_new = {n.path for n in moved.values()}
+    for p in missing:
+        if p in moved:
+            cand[p] = [moved[p]]
+            continue
+        cs = [n for n in newfns if n.path not in taken_new and scope_of(n.path) == scope_of(p) and fn_sig(n) == sigs[p][0] and n.crate == p.split("::")[0].lstrip("<")]
         cand[p] = cs
     claimed = collections.Counter(n.path for cs in cand.values() if len(cs) == 1 for n in cs)
     renames = {}
@@ -873,6 +883,7 @@ class Syn:
         self.inlined = []
         self.renamed = {}
         if not os.environ.get("LAYTHE_NO_INLINE"):
+            syn_apply_moves(self)
             syn_apply_renames(self)
             syn_inline_new_helpers(self)
 
@@ -1007,6 +1018,45 @@ def syn_apply_renames(S):
                     segs = n["p"].split("::")
                     segs[-1] = by_new[segs[-1]]
                     n["p"] = "::".join(segs)
+
+
+def syn_apply_moves(S):
+    """a reference function that is gone from its file but present - same impl, same name, same signature, not a
+    reference function there - in another file of the same crate was moved: the item is put back under its
+    reference file (rules look items up by file)."""
+    sigs = pin_file().get("syn_sigs", {})
+    if not sigs:
+        return
+    pinned = set(pin_file().get("syn_fns", []))
+    present = {}
+    for rel in sorted(S.files):
+        for cont, it in S.walk_items(rel):
+            if it.get("k") != "fn" or any(c[0] == "mod" and c[1] in ("test", "tests") for c in cont):
+                continue
+            impl = next((re.sub(r"<.*", "", c[1]).strip() for c in cont if c[0] == "impl"), "")
+            present.setdefault((impl, it["name"]), []).append((rel, it))
+    have = {"%s|%s|%s" % (rel, impl, it["name"]) for (impl, _), lst in present.items() for rel, it in lst}
+    S.moved = []
+    for key, sig in sigs.items():
+        if key in have:
+            continue
+        rel, impl, name = key.split("|")
+        cands = [(r2, it) for r2, it in present.get((impl, name), []) if r2.split("/")[0] == rel.split("/")[0] and "%s|%s|%s" % (r2, impl, name) not in pinned and _syn_sig(it) == sig]
+        if len(cands) != 1:
+            continue
+        r2, it = cands[0]
+        _syn_remove_item(S, r2, it)
+        j = S.files.setdefault(rel, {"file": os.path.join(REPO, rel), "items": []})
+        if impl:
+            blk = next((x for x in j["items"] if x.get("k") == "impl" and re.sub(r"<.*", "", x.get("self", "")).strip() == impl and not x.get("trait")), None)
+            if blk is None:
+                src = next((x for x in (S.items(r2) or []) if x.get("k") == "impl" and re.sub(r"<.*", "", x.get("self", "")).strip() == impl), None)
+                blk = {"k": "impl", "self": src.get("self", impl) if src else impl, "trait": None, "items": [], "line": it.get("line", 0)}
+                j["items"].append(blk)
+            blk["items"].append(it)
+        else:
+            j["items"].append(it)
+        S.moved.append((key, r2))
 
 
 def syn_inline_new_helpers(S):
